@@ -314,7 +314,9 @@ type session struct {
 	teeMu    sync.Mutex
 	kaMs     int
 	pending  []func() // joins of concurrent snapshot calls
+	sendMu   sync.Mutex
 	agDone   chan struct{}
+	respPipe *io.PipeReader
 	agErr    error
 }
 
@@ -323,6 +325,7 @@ func newSession(reqPat, respPat, bufioMode, kaMs string) (*session, string) {
 	s.kaMs = int(atoi(kaMs))
 	r1, w1 := io.Pipe() // server -> agent
 	r2, w2 := io.Pipe() // agent -> server
+	s.respPipe = r2
 	agentIn := &limitReader{r: r1, pat: noZeros(parsePattern(reqPat)), tee: &s.reqTee, mu: &s.teeMu}
 	serverInRaw := &limitReader{r: r2, pat: noZeros(parsePattern(respPat))}
 	var serverIn agent.ByteReadReader
@@ -336,7 +339,12 @@ func newSession(reqPat, respPat, bufioMode, kaMs string) (*session, string) {
 	s.ag.Handler = s.h
 	var once sync.Once
 	s.srv = udf.NewServer("task", "node", serverIn, w1, s.diag, time.Duration(s.kaMs)*time.Millisecond,
-		func() { once.Do(func() { close(s.aborted) }) }, func() {})
+		func() {
+			// like UDFNode.abortedCallback: signal, then wait until the feeder has stopped writing to In()
+			once.Do(func() { close(s.aborted) })
+			s.sendMu.Lock()
+			s.sendMu.Unlock()
+		}, func() {})
 	if err := s.ag.Start(); err != nil {
 		return s, "err:agent"
 	}
@@ -361,6 +369,13 @@ func newSession(reqPat, respPat, bufioMode, kaMs string) (*session, string) {
 }
 
 func (s *session) send(m edge.Message) bool {
+	s.sendMu.Lock()
+	defer s.sendMu.Unlock()
+	select {
+	case <-s.aborted:
+		return false // In() is closed once the server has aborted
+	default:
+	}
 	select {
 	case s.srv.In() <- m:
 		return true
@@ -387,15 +402,26 @@ func (s *session) finish() string {
 	s.pending = nil
 	err := s.srv.Stop()
 	<-s.collDone
-	<-s.agDone
+	// the server has stopped reading: close its end like the OS does, so that a peer still writing gets an error
+	s.respPipe.Close()
 	status := "ok"
-	if err != nil || s.agErr != nil {
-		status = "err"
-	}
 	select {
 	case <-s.aborted:
 		status = "aborted"
 	default:
+	}
+	if status == "aborted" {
+		// an agent whose output broke keeps goroutines blocked on its unbuffered channels (a real UDF process is
+		// killed by SIGPIPE): do not wait for it
+		select {
+		case <-s.agDone:
+		case <-time.After(300 * time.Millisecond):
+		}
+	} else {
+		<-s.agDone
+		if err != nil || s.agErr != nil {
+			status = "err"
+		}
 	}
 	// how many keepalive requests crossed the wire (informational: depends on timing)
 	ka := 0
@@ -496,6 +522,30 @@ func execCase(ops []string) (out []string) {
 					return obs + " aborted"
 				}
 				return obs
+			})
+		case "ubs":
+			// ubs <batch> <k> <hex>: begin, k points, Snapshot() (the UDF supplies <hex>), the other points, end
+			guard(line, func() string {
+				b := parseInBatch(t[1])
+				k := int(atoi(t[2]))
+				bg := b.begin()
+				obs := kit.Esc(string(bg.GroupID())) + " " + renderDims(bg.Dimensions().TagNames) + " " + renderTags(bg.Tags())
+				ok := s.send(bg)
+				snap := ""
+				for i, p := range b.points() {
+					if i == k {
+						snap = s.snapshot(unhex(t[3]))
+					}
+					ok = ok && s.send(p)
+				}
+				if snap == "" {
+					snap = s.snapshot(unhex(t[3]))
+				}
+				ok = ok && s.send(edge.NewEndBatchMessage())
+				if !ok {
+					return obs + " " + snap + " aborted"
+				}
+				return obs + " " + snap
 			})
 		case "snap":
 			guard(line, func() string { return s.snapshot(unhex(t[1])) })
